@@ -1,10 +1,10 @@
 """C10 — only the leader decides (DESIGN.md section 5 C10)."""
-from checks import _engine
+from checks import _engine, C10_proc
 
 MANIFEST = dict(
-    technique="Coq proof over the executable engine model (non-leader refusal, state unchanged; follower re-arm) + differential correspondence with role changes",
+    technique="Coq proof over the executable engine model (non-leader refusal, state unchanged; follower re-arm) and over the forwarding relay model (exactly-once, in-order, unshifted relay of the leader's replies) + differential correspondence with role changes + process-level leader/follower comparison through a logging proxy",
     text="Theorems in coq/Properties/C10*.v, for every state with status <> LEADER and every client request without the from-AOF flag: the only event is a STATE_ERROR reply to the requester (TIMEOUT for the concurrent-check probe) and the engine state is unchanged extensionally; a persisted hold on a non-leader is re-armed (+30 s) instead of being ended while within 300 s of its deadline. Tie = differential correspondence on seeded histories with role changes between requests and from-AOF (replicated) requests applied while follower, comparing replies and full snapshots; monitor = the same statement on implementation traces. The forwarding path (transparency.go) is not modelled: partial, see DESIGN.md.",
-    note="Trusted: Coq kernel; model validated by the correspondence check; role is switched by the harness under the shard mutex as updateState does. Not covered by the theorem: TransparencyBinary/TextServerProtocol forwarding and relay (observed only / not exercised in the quick tier).",
+    note="Trusted: Coq kernel; model validated by the correspondence check; role is switched by the harness under the shard mutex as updateState does. Forwarding and relay (TransparencyBinary/TextServerProtocol) are decided by the sub-check checks/C10_proc.py: relay model coq/Forward/Relay.v (theorems coq/Properties/C10_proc.v) tied observationally to real leader + follower processes behind a frame-logging proxy; not covered: vote / config states at process level, leader->follower switch with forwarding on an already open connection (needs the arbiter). Known findings in known_findings/C10.json and C10_proc.json.",
 )
 PROFILES = [("role", 0.75), ("schedrole", 0.25)]
 MONITORS = ["C10", "PANIC"]
@@ -13,4 +13,5 @@ MONITORS = ["C10", "PANIC"]
 def run(ctx):
     if getattr(ctx, "replay", None):
         return _engine.replay(ctx, "C10", MONITORS)
-    return _engine.run_engine_check(ctx, "C10", PROFILES, MONITORS, n_quick=500, n_thorough=20000)
+    return _engine.run_engine_check(ctx, "C10", PROFILES, MONITORS, n_quick=500, n_thorough=20000,
+                                    subs=[("C10_proc", C10_proc)])
